@@ -549,6 +549,10 @@ def read_command(buf, n_required_args=-1, n_optional_args=-1, skip=0,
     for _ in range(skip):
         next(buf)
 
+    # a lone escape at the end of the input is a command with an empty name
+    if not buf.hasNext():
+        return Token('', buf.position), TexArgs()
+
     name = next(buf)
     # if the command is a special one (like `newcommand`), enter "special"
     # mode, in which a single `\begin` or `\end` are allowed
